@@ -150,7 +150,7 @@ func c12Lens(d [][]byte, max int) []int {
 	return out
 }
 
-func c12RunUDP(run *vk.Run, cs c12UDPCase) {
+func c12RunUDP(run *vk.Run, cs c12UDPCase, budget *c12Budget) {
 	tun := c12NewConn("tunnel")
 	closeErr := io.EOF
 	if cs.CloseAs == "closed" {
@@ -252,6 +252,8 @@ func c12RunUDP(run *vk.Run, cs c12UDPCase) {
 	}
 
 	// the tunnel has ended (or failed): UDP() must return
+	hangSig := "C12:udp|cut=" + sigCut + "|mode=hang"
+	w.quick = budget.exhausted(hangSig)
 	out := w.until(func() bool { return w.returned() || tun.spun.Load() })
 	self := false
 	switch {
@@ -263,7 +265,10 @@ func c12RunUDP(run *vk.Run, cs c12UDPCase) {
 		run.Count("returned", 1)
 	case out == "hang":
 		run.Count("verdict_hang", 1)
-		run.Violation("C12:udp|cut="+sigCut+"|mode=hang", detail(map[string]any{"goroutines": w.last}))
+		budget.spend(hangSig)
+		run.Violation(hangSig, detail(map[string]any{"goroutines": w.last}))
+	case out == "presumed-hang":
+		run.Count("presumed_hang_not_classified", 1)
 	default:
 		run.Count("watchdog", 1)
 	}
@@ -407,9 +412,10 @@ func TestVerifC12UDPCuts(t *testing.T) {
 	for i := 0; i < len(cases) && i < 400; i += 97 {
 		run.Sample(cases[i])
 	}
+	budget := &c12Budget{max: 48}
 	c12Pool(len(cases), 8, func(i int) {
 		run.Case(fmt.Sprintf("udpcut%d|seq%d|cut=%d", i, cases[i].Seq, cases[i].Cut), cases[i])
-		c12RunUDP(run, cases[i])
+		c12RunUDP(run, cases[i], budget)
 	})
 	c12UDPLeak(run, before)
 	for _, k := range []string{"cut_prefix_eof", "cut_prefix_err", "cut_body_eof", "cut_body_err", "cut_boundary_eof", "cut_boundary_err"} {
@@ -510,11 +516,12 @@ func TestVerifC12UDPLong(t *testing.T) {
 		s.Local = c12Head(s.Local, 12)
 		run.Sample(s)
 	}
+	budget := &c12Budget{max: 48}
 	c12Pool(len(cases), 8, func(i int) {
 		wal := cases[i]
 		wal.Sizes, wal.Local = c12Head(wal.Sizes, 12), c12Head(wal.Local, 12)
 		run.Case(fmt.Sprintf("udplong%d|seq%d|cut=%d", i, cases[i].Seq, cases[i].Cut), wal)
-		c12RunUDP(run, cases[i])
+		c12RunUDP(run, cases[i], budget)
 	})
 	c12UDPLeak(run, before)
 	run.Floor("datagrams_delivered_checked", 1000)
